@@ -55,6 +55,7 @@ TABLE = [
     ("ScriptNOfK", "protocol_types/native_script.rs", "serialization/native_script.rs", 3, 3, [("req", "n"), ("req", "native_scripts")]),
     ("TimelockStart", "protocol_types/native_script.rs", "serialization/native_script.rs", 2, 4, [("req", "slot")]),
     ("TimelockExpiry", "protocol_types/native_script.rs", "serialization/native_script.rs", 2, 5, [("req", "slot")]),
+    cert("MoveInstantaneousRewardsCert", "move_instantaneous_rewards_cert", 2, 6, [("req", "move_instantaneous_reward")]),
     ("PoolParams", "protocol_types/certificates/pool_registration.rs", "serialization/certificates/pool_registration.rs", 9, None,
         [("req", "operator"), ("req", "vrf_keyhash"), ("req", "pledge"), ("req", "cost"), ("req", "margin"), ("req", "reward_account"), ("req", "pool_owners"), ("req", "relays"), ("null", "pool_metadata")]),
     ("DRepVotingThresholds", "protocol_types/protocol_param_update.rs", "serialization/protocol_param_update.rs", 10, None,
@@ -184,6 +185,7 @@ COLLS = [
     ("CostModel", "protocol_types/plutus/cost_model.rs", "serialization/plutus/cost_model.rs", "array", "0", None),
     ("Withdrawals", "lib.rs", "serialization/general.rs", "map", "0", ("R-lhm", "LinkedHashMap<RewardAddress, Coin>", "Vec<(RewardAddress, Coin)>")),
     ("TreasuryWithdrawals", "protocol_types/governance/proposals/treasury_withdrawals.rs", "serialization/governance/proposals/treasury_withdrawals.rs", "map", "0", ("R-btree", "BTreeMap<RewardAddress, Coin>", "Vec<(RewardAddress, Coin)>")),
+    ("MIRToStakeCredentials", "protocol_types/certificates/move_instantaneous_rewards_cert.rs", "serialization/certificates/move_instantaneous_rewards_cert.rs", "map", "rewards", ("R-lhm", "LinkedHashMap<Credential, DeltaCoin>", "Vec<(Credential, DeltaCoin)>")),
     ("ProposedProtocolParameterUpdates", "lib.rs", "serialization/general.rs", "map", "0", ("R-lhm", "LinkedHashMap<GenesisHash, ProtocolParamUpdate>", "Vec<(GenesisHash, ProtocolParamUpdate)>")),
 ]
 spec.append('''
@@ -312,7 +314,7 @@ toml.append(open(os.path.join(D, "contracts/ser_records/custom.toml")).read())
 spec.append(open(os.path.join(D, "contracts/ser_records/custom_spec.rs")).read())
 own = set(t[0] for t in TABLE) | set(c[0] for c in COLLS) | set(l[0] for l in LEAVES) | set(d[0] for d in DISPATCH) | set(d[4] for d in DISPATCH if d[4]) | set(re.findall(r'(?m)^name = "(\w+)"', open(os.path.join(D, "contracts/ser_records/custom.toml")).read()))
 opaque -= own
-opaque -= {"Coin", "Epoch", "Port", "BigNum", "TransactionIndex", "GovernanceActionIndex", "Ed25519KeyHash", "ScriptHash", "SubCoin", "PlutusData", "SlotBigNum"}
+opaque -= {"Coin", "Epoch", "Port", "BigNum", "TransactionIndex", "GovernanceActionIndex", "Ed25519KeyHash", "ScriptHash", "SubCoin", "PlutusData", "SlotBigNum", "Credentials", "DeltaCoin"}
 open(os.path.join(D, "contracts/ser_records/unit.toml"), "w").write("\n".join(toml))
 open(os.path.join(D, "contracts/ser_records/spec.rs"), "w").write("".join(spec))
 open(os.path.join(D, "contracts/ser_records/opaque.rs"), "w").write(
